@@ -96,6 +96,23 @@ def colliding_values(dsize: int):
     return pair
 
 
+def readonly_battery(n):
+    from pyoak.match.pattern import NodeMatcher
+    from pyoak.visitor import ASTVisitor
+
+    class _V(ASTVisitor[int]):
+        def generic_visit(self, node):
+            return 1 + sum(self.visit(c) for c in node.get_child_nodes())
+
+    list(n.dfs()), list(n.bfs()), list(n.gather(ASTNode)), n.children, list(n.get_properties()), n.to_properties_dict()
+    t = n.to_tree()
+    t.get_depth(n), t.is_in_tree(n), t.get_xpath(n)
+    n.find("//RL"), list(n.findall("//RL")), list(n.findall("/RP/@c RL"))
+    NodeMatcher.from_pattern("(* @v -> x)")[0].match(n)
+    _V().visit(n)
+    n == n, hash(n), repr(n), n.is_equal(n), n.as_dict(), n.to_json(), n.to_yaml(), n.to_msgpck()
+
+
 class World:
     def __init__(self):
         self.slots = [None] * NSLOTS
@@ -218,7 +235,7 @@ class Model:
                 else:
                     ops += [("rep_c", r)]
         for r, n in enumerate(nodes):
-            ops += [("detach", r), ("detach_self", r), ("rep_bad", r)]
+            ops += [("detach", r), ("detach_self", r), ("rep_bad", r), ("readonly", r)]
             if isinstance(n, RL):
                 ops += [("rep_bad_late", r), ("rep_bad_late_other", r)]
             else:
@@ -333,6 +350,12 @@ class Model:
                 errs.append(("failed-replace-changed-id", "a failing replace changed the id / hash of an existing node"))
             if before != after:
                 errs.append(("failed-replace-changed-registry", f"registry before {sorted(before)} after {sorted(after)}"))
+        elif k == "readonly":
+            # operations that only read: traversal, Tree queries, xpath and pattern search, visiting, comparison,
+            # hashing, printing, serializing.  The reference registry is not touched, so the invariant below fails if
+            # any of them registers or unregisters something
+            src = nodes[op[1]]
+            readonly_battery(src)
         elif k == "detach":
             src = nodes[op[1]]
             for n in subtree(src):
